@@ -201,6 +201,13 @@ func c15Mutants(name string, root any) []c15mut {
 					add(ptr, fmt.Sprintf("ref-ancestor-%d", up), ptrString(ptr)+" -> #"+ptrString(anc), setAt(root, ptr, map[string]any{"$ref": "#" + ptrString(anc)}, false), anc[len(anc)-1])
 				}
 			}
+			// a composed or object schema gains a `required` list naming a property it does not declare itself
+			// (it may be declared by an allOf member, or by nobody)
+			if _, isAllOf := x["allOf"]; isAllOf || x["type"] == "object" {
+				if _, has := x["required"]; !has && len(ptr) >= 1 {
+					add(ptr, "add-required", ptrString(ptr)+" + required [zz]", setAt(root, append(append([]string{}, ptr...), "required"), []any{"zz"}, false), "")
+				}
+			}
 			if sc, ok := x["schema"]; ok {
 				if _, isParam := x["in"]; isParam {
 					m := deepCopy(x).(map[string]any)
@@ -493,6 +500,11 @@ func C15(run *report.Run) {
 		case genrun.Success:
 			outcomes["success"]++
 			judged++
+			// success means the package was generated: the files the options call for exist
+			if missing, _ := expectedFiles(r.Files, j.Client); len(missing) > 0 && !j.NoAPI {
+				run.Violate(&report.Violation{Attrs: map[string]string{"class": "success-without-output", "mutation": m.kind, "missing": strings.Join(missing, ",")}, State: state,
+					Observed: "the generator reported success but did not write " + strings.Join(missing, ", "), Expected: "success with the generated package, or an error", Detail: map[string]any{"job": j}})
+			}
 		case genrun.GenError:
 			outcomes["error"]++
 			judged++
